@@ -195,6 +195,19 @@ func (o *oracle) after(line, res string, pre, st *mstate, kc kase, all bool) boo
 	if own("C31") && (kind == "cherry" || kind == "cherryA" || kind == "revert" || kind == "revertA") && res == "ok" {
 		o.mergeDef(kind, w[1], pre, st, kc)
 	}
+	if own("C31") && (kind == "cherryA" || kind == "revertA") && res != "ok" && o.lastDump != "" {
+		// a failed / aborted cherry-pick or revert leaves everything as it was (abort ∘ start = id)
+		if now, err := im.dump(); err == nil && now != o.lastDump {
+			o.rep.Hit("oracle/C31/abort-changed-state")
+			if kind == "revertA" && len(pre.status) > 0 {
+				o.rep.Known("C31/revert-abort/discards-uncommitted-changes", fmt.Sprintf("dolt_revert on a working set with unrelated uncommitted changes hit a conflict; dolt_revert('--abort') reset the working set to HEAD and discarded them: before %s after %s", field(o.lastDump, "W:"), field(now, "W:")), kc)
+			} else {
+				o.rep.Violate("C31/abort/state-changed", fmt.Sprintf("%s failed but the state changed: before %s after %s", line, o.lastDump, now), kc)
+			}
+		} else if err == nil {
+			o.rep.Hit("oracle/C31/abort-identity")
+		}
+	}
 	if own("C31") && kind == "rebase" && res == "ok" && len(im.lastPlan) > 0 {
 		o.rebaseFold(w, pre, st, kc)
 	}
@@ -435,7 +448,10 @@ func (o *oracle) rebaseFold(w []string, pre, st *mstate, kc kase) {
 				continue
 			}
 			r := im.q(fmt.Sprintf("call dolt_cherry_pick('%s')", h))
-			if r.Err != nil && !strings.Contains(r.Err.Error(), "no changes were made") {
+			// a plan commit that is (or has become) empty contributes no data: rebase keeps / drops it by
+			// its empty-commit handling, a plain cherry-pick refuses it — skip it in the fold
+			if r.Err != nil && !strings.Contains(r.Err.Error(), "no changes were made") &&
+				!strings.Contains(r.Err.Error(), "cherry-pick commit is empty") {
 				o.rep.Violate("C31/rebase-fold/error", fmt.Sprintf("rebase succeeded but cherry-picking plan step %d fails: %v", i+1, r.Err), kc)
 				return
 			}
@@ -1585,6 +1601,12 @@ func witnesses(rn *runner) {
 	var ops []string
 	switch rn.prop {
 	case "C31":
+		// dolt_revert('--abort') discards unrelated uncommitted changes (here: an untracked table)
+		hx.Recover(func() string {
+			rn.runProgram(nil, []string{"create t c1:int", "ins t 1 i1", "commitA " + hexS("w1"), "upd t 1 c1 i2", "commitA " + hexS("w2"),
+				"upd t 1 c1 i3", "commitA " + hexS("w3"), "create u c1:int", "ins u 1 i1", "revertA c2"}, 0)
+			return ""
+		})
 		// cherry-picking a commit that drops the column declared before the key corrupts the table
 		ops = []string{"create v pk@1 c1:int c2:int", "ins v 6 i2 i-4", "commitA " + hexS("w1"), "dropcol v c1", "upd v 6 c2 i7", "ins v 0 N", "commitA " + hexS("w2")}
 	case "C34":
